@@ -1,5 +1,6 @@
 import Cell2v.Model.ServiceLife
 import Cell2v.Lemmas.Service
+import Cell2v.Lemmas.ServiceLive
 /-
 C01 — lemmas for the restart layer (`Model/ServiceLife.lean`): every incarnation of the actor,
 live or orphaned, is a reachable state of the one-incarnation model, so every theorem about
@@ -117,5 +118,93 @@ theorem lrun_LReach : ∀ (ops : List LOp) (l : Life), LReach l → LReach (lrun
   induction ops with
   | nil => intro l h; exact h
   | cons op t ih => intro l h; exact ih _ (lstep_LReach h op)
+
+/-! ### following ONE orphaned object through the rest of the actor's life
+
+Orphans are only ever added at the head of `Life.old` and changed in place, so "the object orphaned when
+`n` older orphans existed" is the element with `n` elements behind it. -/
+
+theorem length_modNth (f : State → State) : ∀ (k : Nat) (l : List State), (modNth f k l).length = l.length := by
+  intro k l
+  induction l generalizing k with
+  | nil => cases k <;> rfl
+  | cons a t ih =>
+    cases k with
+    | zero => rfl
+    | succ k => simp [modNth, ih]
+
+/-- `modNth` keeps the position (counted from the end) of every element and changes it by `f` or not at all -/
+theorem modNth_decomp (f : State → State) : ∀ (pre : List State) (k : Nat) (s : State) (post : List State),
+    ∃ pre' s' post', modNth f k (pre ++ s :: post) = pre' ++ s' :: post' ∧ post'.length = post.length ∧
+      (s' = s ∨ s' = f s) := by
+  intro pre
+  induction pre with
+  | nil =>
+    intro k s post
+    cases k with
+    | zero => exact ⟨[], f s, post, rfl, rfl, Or.inr rfl⟩
+    | succ k => exact ⟨[], s, modNth f k post, rfl, length_modNth f k post, Or.inl rfl⟩
+  | cons a t ih =>
+    intro k s post
+    cases k with
+    | zero => exact ⟨f a :: t, s, post, rfl, rfl, Or.inl rfl⟩
+    | succ k =>
+      obtain ⟨pre', s', post', h, hl, hs⟩ := ih k s post
+      exact ⟨a :: pre', s', post', by simp only [List.cons_append, modNth, h], hl, hs⟩
+
+/-- the object with `n` older orphans behind it is a one-object history and — unless its own id guard failed —
+keeps the request `i` (deadline `d`) alive: registered with its callback, or called back exactly once -/
+def Tracked (n i d : Nat) (l : Life) : Prop :=
+  ∃ pre s post, l.old = pre ++ s :: post ∧ post.length = n ∧ OneLife s ∧ (s.collided = false → Live s i d)
+
+theorem OneLife.WF {s : State} (h : OneLife s) (hc : s.collided = false) : WF s := by
+  obtain ⟨M, ops, rfl⟩ := h
+  exact run_WF ops _ (init_WF M 0) hc
+
+theorem tracked_step_elem {s : State} {i d : Nat} (h1 : OneLife s) (h2 : s.collided = false → Live s i d) (op : Op) :
+    OneLife (step s op) ∧ ((step s op).collided = false → Live (step s op) i d) := by
+  refine ⟨h1.step op, fun hc => ?_⟩
+  have hc0 : s.collided = false := by
+    cases h : s.collided with
+    | false => rfl
+    | true => rw [step_collided op h] at hc; cases hc
+  exact step_Live (h1.WF hc0) op hc (h2 hc0)
+
+theorem lstep_Tracked {n i d : Nat} {l : Life} (h : Tracked n i d l) (op : LOp) : Tracked n i d (lstep l op) := by
+  obtain ⟨pre, s, post, e, hn, h1, h2⟩ := h
+  cases op with
+  | live op =>
+    cases op with
+    | advance dt =>
+      obtain ⟨a, b⟩ := tracked_step_elem h1 h2 (.advance dt)
+      exact ⟨pre.map (fun s => step s (.advance dt)), step s (.advance dt), post.map (fun s => step s (.advance dt)),
+        by simp [lstep, e], by simpa using hn, a, b⟩
+    | issue r o c => exact ⟨pre, s, post, e, hn, h1, h2⟩
+    | noroute r c => exact ⟨pre, s, post, e, hn, h1, h2⟩
+    | response id p => exact ⟨pre, s, post, e, hn, h1, h2⟩
+    | tick order => exact ⟨pre, s, post, e, hn, h1, h2⟩
+    | ret => exact ⟨pre, s, post, e, hn, h1, h2⟩
+    | panic => exact ⟨pre, s, post, e, hn, h1, h2⟩
+  | orphan k op =>
+    simp only [lstep]
+    split
+    · obtain ⟨pre', s', post', hm, hl, hs⟩ := modNth_decomp (fun s => step s op) pre k s post
+      refine ⟨pre', s', post', by simp only [e]; exact hm, by omega, ?_⟩
+      · rcases hs with rfl | rfl
+        · exact ⟨h1, h2⟩
+        · exact tracked_step_elem h1 h2 op
+    · exact ⟨pre, s, post, e, hn, h1, h2⟩
+  | crash =>
+    show Tracked n i d (crash l)
+    unfold crash
+    split
+    · exact ⟨pre, s, post, e, hn, h1, h2⟩
+    · exact ⟨unwound l.cur :: pre, s, post, by simp [e], hn, h1, h2⟩
+
+theorem lrun_Tracked {n i d : Nat} : ∀ (ops : List LOp) (l : Life), Tracked n i d l → Tracked n i d (lrun l ops) := by
+  intro ops
+  induction ops with
+  | nil => intro l h; exact h
+  | cons op t ih => intro l h; exact ih _ (lstep_Tracked h op)
 
 end Cell2v.Service
